@@ -70,7 +70,7 @@ def check(m, run):
         run.ob('PU1.no-param-mutation', key, not mp, '; '.join('%s mutated by %s at `%s`' % (mu.root, mu.how[:80], norm(mu.node)[:70]) for mu in mp[:2]) or 'no parameter is mutated',
                site(mp[0].func, mp[0].node) if mp else '')
     from . import c03
-    c03.ho2(m, run)     # least-squares fitting evaluates N_i(u_k) with the single-function routine: half-open spans
+    c03.single_function_rules(m, run)     # least-squares fitting evaluates N_i(u_k) with the single-function routine: half-open spans
     try:
         from .. import skel_drivers
         skel_drivers.c11(m, run)
